@@ -853,6 +853,68 @@ theorem witnessHeat_feasible : (assembleCHPP witnessHeat).FeasibleRelaxed xHeat 
 
 example : commitOKP witnessHeat = true := by decide +kernel
 
+/-! ## (C') the ramp rows with any number of flags in their window -/
+
+/-- a coefficient list with one constant coefficient: the constant times the sum of the values -/
+theorem tsum_const (js : List Nat) (idx : Nat → Nat) (c : Rat) (x : Vec) :
+    tsum (js.map fun j => (idx j, c)) x = c * (js.map fun j => x (idx j)).sum := by
+  induction js with
+  | nil => simp [tsum]
+  | cons j js ih =>
+    simp only [tsum, List.map_cons, List.sum_cons] at ih ⊢
+    rw [ih]; grind
+
+/-- number of start flags the upper ramp row of step `t` sees: `Σ_{i<S, i≤t} start_{t−i}` -/
+def startsSeen (r : CHPRP) (x : Vec) (t : Nat) : Rat :=
+  (((List.range r.prof.S).filter fun i => decide (i ≤ t)).map fun i => x (r.core.layout.start (t - i))).sum
+
+/-- number of shutdown flags the lower ramp row of step `t` sees: `Σ_{i<Q, t+i<T} shut_{t+i}` -/
+def shutsSeen (r : CHPRP) (x : Vec) (t : Nat) : Rat :=
+  (((List.range r.prof.Q).filter fun i => decide (t + i < r.core.T)).map fun i => x (r.shut (t + i))).sum
+
+/-- the ramp rows of a step `t ≥ 1` with ANY number of flags set: every start flag in the window of the upper row
+    relaxes it by `max_cap_t − ramp`, every shutdown flag in the window of the lower row by `max_cap_{t−1} − ramp` -/
+theorem ramp_rows_general (r : CHPRP) (x : Vec) (hx : (assembleCHPP r).FeasibleRelaxed x) (hon : r.core.incOn = true)
+    (ρ : Rat) (hρ : r.core.ramp = some ρ) (t : Nat) (h1 : 1 ≤ t) (ht : t < r.core.T) :
+    r.core.vd x t ≤ r.core.vd x (t - 1) + ρ * x (r.core.layout.on t) + (r.core.maxCap t - ρ) * startsSeen r x t ∧
+    r.core.vd x (t - 1) - ρ * x (r.core.layout.on (t - 1)) - (r.core.maxCap (t - 1) - ρ) * shutsSeen r x t ≤
+      r.core.vd x t := by
+  have hu : (r.rampUpper ρ t).eval x ≤ (if r.core.incOn then 0 else ρ) :=
+    CHPProfile.sat_of_memP hx (CHPProfile.rampUpperP_mem r hρ h1 ht)
+  have hl : (if r.core.incOn then 0 else - ρ) ≤ (r.rampLower ρ t).eval x :=
+    CHPProfile.sat_of_memP hx (CHPProfile.rampLowerP_mem r hρ h1 ht)
+  have hcu : (r.core.rampUpper ρ t).eval x = r.core.vd x t - r.core.vd x (t - 1) - ρ * x (r.core.layout.on t) := by
+    cases hh : r.core.heat <;>
+      simp [CHPR.rampUpper, CHPR.rampDiff, CHPR.virt, CHPR.vd, Row.eval, hh, hon] <;> grind
+  have hcl : (r.core.rampLower ρ t).eval x = r.core.vd x t - r.core.vd x (t - 1) + ρ * x (r.core.layout.on (t - 1)) := by
+    cases hh : r.core.heat <;>
+      simp [CHPR.rampLower, CHPR.rampDiff, CHPR.virt, CHPR.vd, Row.eval, hh, hon] <;> grind
+  have e1 : tsum (CHPProfile.rampStartTerms r ρ t) x = (ρ - r.core.maxCap t) * startsSeen r x t :=
+    tsum_const _ (fun i => r.core.layout.start (t - i)) _ x
+  have e2 : tsum (CHPProfile.rampShutTerms r ρ t) x = (r.core.maxCap (t - 1) - ρ) * shutsSeen r x t :=
+    tsum_const _ (fun i => r.shut (t + i)) _ x
+  rw [CHPProfile.rampUpperP_eval, hcu, e1] at hu
+  rw [CHPProfile.rampLowerP_eval, hcl, e2] at hl
+  simp only [hon, if_true] at hu hl
+  constructor <;> grind
+
+/-- the first-step lower ramp row with any number of shutdown flags among the first `Q` steps (observation P-3: a
+    shutdown flag of step 0 … `Q−1` lifts the comparison with `last_dispatch`) -/
+theorem ramp_first_lower_general (r : CHPRP) (x : Vec) (hx : (assembleCHPP r).FeasibleRelaxed x)
+    (ρ : Rat) (hρ : r.core.ramp = some ρ) :
+    (if r.core.tar = 0 then r.core.last else r.core.last - ρ) -
+        (r.core.last - ρ) * ((List.range r.prof.Q).map fun i => x (r.shut i)).sum ≤ r.core.vd x 0 := by
+  have hl : (if r.core.tar = 0 then r.core.last else - ρ + r.core.last) ≤ (r.rampFirstLower ρ).eval x :=
+    CHPProfile.sat_of_memP hx (CHPProfile.rampFirstLowerP_mem r hρ)
+  have hc : (r.core.rampFirstLower ρ).eval x = r.core.vd x 0 := by
+    show tsum (r.core.virt 0 (r.core.cv 0)) x = _
+    exact CHPProfile.tsum_virt r.core x 0
+  have e : tsum ((List.range r.prof.Q).map fun i => (r.shut i, r.core.last - ρ)) x =
+      (r.core.last - ρ) * ((List.range r.prof.Q).map fun i => x (r.shut i)).sum :=
+    tsum_const _ (fun i => r.shut i) _ x
+  rw [CHPProfile.rampFirstLowerP_eval, hc, e] at hl
+  split at hl <;> simp_all <;> grind
+
 /-! ## (D) `convertRamp` (`CHPAsset._convert_ramp`)
 
 `ct = step / ramp_freq`.  Identity when the frequency strings are equal or the two lengths are equal; a grid that is
@@ -1286,5 +1348,267 @@ theorem fine_entry_last (ramp : List Rat) (m ss : Nat) (hm : 2 ≤ m) (hss : 0 <
     · have : 2 * m ≤ ramp.length * m := Nat.mul_le_mul_right m h1
       omega
     · omega
+
+/-! ### `_convert_ramp` is monotone; the profiles on the grid keep `lower ≤ upper` -/
+
+/-- pointwise `≤` of two lists of the same length -/
+inductive LeL : List Rat → List Rat → Prop
+  | nil : LeL [] []
+  | cons {x y : Rat} {a b : List Rat} : x ≤ y → LeL a b → LeL (x :: a) (y :: b)
+
+theorem LeL.length_eq {a b : List Rat} (h : LeL a b) : a.length = b.length := by
+  induction h with
+  | nil => rfl
+  | cons _ _ ih => simp [ih]
+
+theorem LeL.sum_le {a b : List Rat} (h : LeL a b) : a.sum ≤ b.sum := by
+  induction h with
+  | nil => exact Rat.le_refl
+  | cons h1 _ ih => simp only [List.sum_cons]; grind
+
+theorem LeL.take {a b : List Rat} (h : LeL a b) (n : Nat) : LeL (a.take n) (b.take n) := by
+  induction h generalizing n with
+  | nil => simpa using LeL.nil
+  | cons h1 _ ih =>
+    cases n with
+    | zero => simpa using LeL.nil
+    | succ n => simp only [List.take_succ_cons]; exact LeL.cons h1 (ih n)
+
+theorem LeL.drop {a b : List Rat} (h : LeL a b) (n : Nat) : LeL (a.drop n) (b.drop n) := by
+  induction h generalizing n with
+  | nil => simpa using LeL.nil
+  | cons h1 h2 ih =>
+    cases n with
+    | zero => exact LeL.cons h1 h2
+    | succ n => simp only [List.drop_succ_cons]; exact ih n
+
+theorem LeL.getD {a b : List Rat} (h : LeL a b) (j : Nat) : a.getD j 0 ≤ b.getD j 0 := by
+  induction h generalizing j with
+  | nil => simp
+  | cons h1 _ ih =>
+    cases j with
+    | zero => simpa using h1
+    | succ j => simpa using ih j
+
+theorem LeL.getLastD {a b : List Rat} (h : LeL a b) : a.getLastD 0 ≤ b.getLastD 0 := by
+  induction h with
+  | nil => simp
+  | @cons x y l1 l2 h1 h2 ih =>
+    cases h2 with
+    | nil => simpa using h1
+    | cons h3 h4 => simpa [List.getLastD_cons] using ih
+
+theorem LeL.append {a b c d : List Rat} (h1 : LeL a b) (h2 : LeL c d) : LeL (a ++ c) (b ++ d) := by
+  induction h1 with
+  | nil => simpa using h2
+  | cons h _ ih => exact LeL.cons h ih
+
+theorem LeL.replicate (n : Nat) {u v : Rat} (h : u ≤ v) : LeL (List.replicate n u) (List.replicate n v) := by
+  induction n with
+  | zero => exact LeL.nil
+  | succ n ih => exact LeL.cons h ih
+
+theorem LeL.map_range (N : Nat) (f g : Nat → Rat) (h : ∀ k, k < N → f k ≤ g k) :
+    LeL ((List.range N).map f) ((List.range N).map g) := by
+  induction N with
+  | zero => exact LeL.nil
+  | succ N ih =>
+    rw [List.range_succ, List.map_append, List.map_append]
+    exact LeL.append (ih (fun k hk => h k (by omega))) (LeL.cons (h N (by omega)) LeL.nil)
+
+
+/-- one interpolation step is a convex combination, hence monotone in the two values -/
+theorem lerp_mono {xa xb x fa fa' fb fb' : Rat} (h1 : xa ≤ x) (h2 : x < xb) (ha : fa ≤ fa') (hb : fb ≤ fb') :
+    fa + (x - xa) * ((fb - fa) / (xb - xa)) ≤ fa' + (x - xa) * ((fb' - fa') / (xb - xa)) := by
+  have hd : 0 < xb - xa := by grind
+  have hdi : 0 < (xb - xa)⁻¹ := Rat.inv_pos.mpr hd
+  have hμ0 : 0 ≤ (x - xa) * (xb - xa)⁻¹ := Rat.mul_nonneg (by grind) (Rat.le_of_lt hdi)
+  have hμ1 : (x - xa) * (xb - xa)⁻¹ ≤ 1 := by
+    have : (x - xa) * (xb - xa)⁻¹ ≤ (xb - xa) * (xb - xa)⁻¹ :=
+      Rat.mul_le_mul_of_nonneg_right (by grind) (Rat.le_of_lt hdi)
+    rwa [Rat.mul_inv_cancel _ (by grind)] at this
+  have e : ∀ f g : Rat, f + (x - xa) * ((g - f) / (xb - xa)) = f + ((x - xa) * (xb - xa)⁻¹) * (g - f) := by
+    intro f g; rw [Rat.div_def]; grind
+  rw [e fa fb, e fa' fb']
+  generalize (x - xa) * (xb - xa)⁻¹ = μ at hμ0 hμ1 ⊢
+  have p1 : 0 ≤ (1 - μ) * (fa' - fa) := Rat.mul_nonneg (by grind) (by grind)
+  have p2 : 0 ≤ μ * (fb' - fb) := Rat.mul_nonneg hμ0 (by grind)
+  grind
+
+theorem interp_go_mono (x : Rat) : ∀ (xs fs fs' : List Rat) (xa fa fa' : Rat),
+    xa ≤ x → fa ≤ fa' → LeL fs fs' → interp.go x xa fa xs fs ≤ interp.go x xa fa' xs fs' := by
+  intro xs
+  induction xs with
+  | nil => intro fs fs' xa fa fa' _ ha _; simpa [interp.go] using ha
+  | cons xb xr ih =>
+    intro fs fs' xa fa fa' hx ha hf
+    cases hf with
+    | nil => simpa [interp.go] using ha
+    | cons hb hr =>
+      simp only [interp.go]
+      split
+      · exact lerp_mono hx (by assumption) ha hb
+      · exact ih _ _ xb _ _ (Rat.not_lt.mp (by assumption)) hb hr
+
+theorem interp_mono (xp fp fp' : List Rat) (x : Rat) (h : LeL fp fp') : interp xp fp x ≤ interp xp fp' x := by
+  cases xp with
+  | nil => simp [interp]
+  | cons x0 xs =>
+    cases h with
+    | nil => simp [interp]
+    | cons h0 hr =>
+      simp only [interp]
+      split
+      · exact h0
+      · exact interp_go_mono x xs _ _ x0 _ _ (Rat.le_of_lt (Rat.not_le.mp (by assumption))) h0 hr
+
+/-- `_convert_ramp` is monotone: a pointwise smaller profile converts to a pointwise smaller profile (all three
+    branches, any ratio of the two frequencies) — in particular converted lower bounds stay below converted upper bounds -/
+theorem convertRamp_mono (lo up : List Rat) (h : LeL lo up) (s rs : Nat) (hrs : 0 < rs) (same : Bool) :
+    LeL (convertRamp lo s rs same) (convertRamp up s rs same) := by
+  have hrq : (0 : Rat) < (rs : Rat) := Rat.natCast_pos.mpr hrs
+  cases same
+  · by_cases hc : rs ≤ s
+    · rw [convertRamp_coarse_general lo s rs hrs hc, convertRamp_coarse_general up s rs hrs hc, h.length_eq]
+      apply LeL.map_range
+      intro i _
+      have hct1 : (1 : Rat) ≤ (s : Rat) / (rs : Rat) := by
+        apply Rat.not_lt.mp
+        rw [Rat.div_lt_iff hrq, Rat.one_mul, Rat.natCast_lt_natCast]
+        omega
+      generalize (s : Rat) / (rs : Rat) = ct at hct1 ⊢
+      have hP : LeL (lo ++ List.replicate ct.ceil.toNat (lo.getLastD 0)) (up ++ List.replicate ct.ceil.toNat (up.getLastD 0)) :=
+        LeL.append h (LeL.replicate _ h.getLastD)
+      generalize lo ++ List.replicate ct.ceil.toNat (lo.getLastD 0) = P at hP ⊢
+      generalize up ++ List.replicate ct.ceil.toNat (up.getLastD 0) = P' at hP ⊢
+      have ha : (0 : Rat) ≤ ((i : Nat) : Rat) * ct := Rat.mul_nonneg Rat.natCast_nonneg (by grind)
+      have hb : ((i + 1 : Nat) : Rat) * ct = ((i : Nat) : Rat) * ct + ct := by rw [Rat.natCast_add]; simp; grind
+      rw [hb]
+      generalize ((i : Nat) : Rat) * ct = a at ha ⊢
+      obtain ⟨w1, _, w3, _, _, _⟩ := coarse_weights a ct ha hct1
+      have hci : 0 ≤ ct⁻¹ := Rat.le_of_lt (Rat.inv_pos.mpr (by grind))
+      rw [Rat.div_def, Rat.div_def]
+      apply Rat.mul_le_mul_of_nonneg_right _ hci
+      have s1 := ((hP.drop a.ceil.toNat).take ((a + ct).floor.toNat - a.ceil.toNat)).sum_le
+      have s2 := Rat.mul_le_mul_of_nonneg_left (hP.getD (a.ceil.toNat - 1)) w1
+      have s3 := Rat.mul_le_mul_of_nonneg_left (hP.getD (a + ct).floor.toNat) w3
+      grind
+    · have hct : (s : Rat) / (rs : Rat) < 1 := by
+        rw [Rat.div_lt_iff hrq, Rat.one_mul, Rat.natCast_lt_natCast]
+        omega
+      unfold convertRamp
+      simp only [Bool.false_eq_true, if_false, hct, if_true, h.length_eq]
+      apply LeL.map_range
+      intro k _
+      exact interp_mono _ _ _ _ h
+  · exact h
+
+theorem LeL_of_zip (l u : List Rat) (hlen : l.length = u.length)
+    (h : (l.zip u).any (fun p => decide (p.2 < p.1)) = false) : LeL l u := by
+  induction l generalizing u with
+  | nil => cases u with
+    | nil => exact LeL.nil
+    | cons _ _ => simp at hlen
+  | cons x l ih =>
+    cases u with
+    | nil => simp at hlen
+    | cons y u =>
+      simp only [List.zip_cons_cons, List.any_cons, Bool.or_eq_false_iff, decide_eq_false_iff_not] at h
+      exact LeL.cons (Rat.not_lt.mp h.1) (ih u (by simpa using hlen) h.2)
+
+theorem LeL.map_mul {a b : List Rat} (h : LeL a b) {f : Rat} (hf : 0 ≤ f) : LeL (a.map (· * f)) (b.map (· * f)) := by
+  induction h with
+  | nil => exact LeL.nil
+  | cons h1 _ ih => exact LeL.cons (Rat.mul_le_mul_of_nonneg_right h1 hf) ih
+
+theorem profCtor_ordered {q : CHPProfP} {sd : (List Rat × List Rat) × (List Rat × List Rat)}
+    (h : profCtor q = .ok sd) : LeL sd.1.1 sd.1.2 ∧ LeL sd.2.1 sd.2.2 := by
+  unfold profCtor at h
+  simp only [bind, Except.bind, pure, Except.pure] at h
+  have pair_ok : ∀ (lo up : Option (List Rat)) (v : List Rat × List Rat),
+      (match lo with
+        | none => (Except.ok ([], []) : Except BuildError (List Rat × List Rat))
+        | some l =>
+          if l.length ≠ (up.getD l).length then throw BuildError.assertion
+          else if ((l.zip (up.getD l)).any fun p => decide (p.snd < p.fst)) = true then throw BuildError.assertion
+          else Except.ok (l, up.getD l)) = Except.ok v → LeL v.1 v.2 := by
+    intro lo up v hv
+    split at hv
+    · injection hv with hv; subst hv; exact LeL.nil
+    · split at hv
+      · simp [throw, throwThe, MonadExceptOf.throw] at hv
+      · split at hv
+        · simp [throw, throwThe, MonadExceptOf.throw] at hv
+        · injection hv with hv; subst hv
+          rename_i h1 h2
+          exact LeL_of_zip _ _ (by simpa using h1) (by simpa using h2)
+  split at h
+  · simp at h
+  · rename_i v hv
+    split at h
+    · simp at h
+    · rename_i v1 hv1
+      have e : sd = (v, v1) := by
+        repeat' split at h
+        all_goals simp_all [throw, throwThe, MonadExceptOf.throw]
+      subst e
+      exact ⟨pair_ok _ _ _ hv, pair_ok _ _ _ hv1⟩
+
+theorem div_natCast_nonneg (a b : Nat) : (0 : Rat) ≤ (a : Rat) / (b : Rat) := by
+  rw [Rat.div_def]
+  rcases Nat.eq_zero_or_pos b with h | h
+  · subst h; simp
+  · exact Rat.mul_nonneg Rat.natCast_nonneg (Rat.le_of_lt (Rat.inv_pos.mpr (Rat.natCast_pos.mpr h)))
+
+/-- the profiles on the grid keep the order the constructor asserts: lower ≤ upper entry by entry, same length -/
+theorem mkProf_ordered (q : CHPProfP) {sd : (List Rat × List Rat) × (List Rat × List Rat)} (h : profCtor q = .ok sd)
+    (hr : 0 < q.rampFreqSec) (stepSec unitSec : Nat) :
+    LeL (mkProf q sd.1 sd.2 stepSec unitSec).sl (mkProf q sd.1 sd.2 stepSec unitSec).su ∧
+    LeL (mkProf q sd.1 sd.2 stepSec unitSec).ql (mkProf q sd.1 sd.2 stepSec unitSec).qu := by
+  obtain ⟨h1, h2⟩ := profCtor_ordered h
+  have hf := div_natCast_nonneg stepSec unitSec
+  simp only [mkProf]
+  constructor
+  · split
+    · exact LeL.nil
+    · exact (convertRamp_mono _ _ h1 stepSec _ hr _).map_mul hf
+  · split
+    · exact LeL.nil
+    · exact (convertRamp_mono _ _ h2 stepSec _ hr _).map_mul hf
+
+theorem resolveCHPP_prof {p : CHPP} {q : CHPProfP} {base : AssetProblem} {g : Grid} {prices : Prices} {u s : Nat}
+    {costsOnly : Bool} {r : CHPRP} (h : resolveCHPP p q base g prices u s costsOnly = .ok (some r)) :
+    ∃ sd, profCtor q = .ok sd ∧ r.prof = mkProf q sd.1 sd.2 s u := by
+  unfold resolveCHPP at h
+  simp only [bind, Except.bind, pure, Except.pure] at h
+  cases hc : chpCtor p with
+  | error e => simp [hc] at h
+  | ok hf =>
+    simp only [hc] at h
+    cases hp : profCtor q with
+    | error e => simp [hp] at h
+    | ok sd =>
+      simp only [hp] at h
+      refine ⟨sd, rfl, ?_⟩
+      by_cases hT : g.T = 0
+      · simp [hT] at h
+      · simp only [hT, if_false] at h
+        split at h
+        · simp [throw, throwThe, MonadExceptOf.throw] at h
+        cases hv : chpVectors p g prices hf.1 hf.2 with
+        | error e => simp [hv] at h
+        | ok v =>
+          simp only [hv] at h
+          split at h
+          · simp at h
+          · split at h
+            · injection h with h; injection h with h; subst h; rfl
+            · split at h
+              · simp at h
+              · split at h
+                · simp [throw, throwThe, MonadExceptOf.throw] at h
+                · split at h
+                  · simp [throw, throwThe, MonadExceptOf.throw] at h
+                  · injection h with h; injection h with h; subst h; rfl
 
 end EAO.CHPProfCommit
